@@ -24,7 +24,7 @@ def compare(chk, model, hscan, items, kind):
     for i, (decl, sexp, bufs, meta) in enumerate(items):
         src = "rule r { strings: $a = %s condition: $a }" % decl
         cases.append(("x%d" % i, ["newcompiler", "add " + hx(src.encode()), "getrules", "scanner 0"] + ["scan " + hx(b) for b in bufs]))
-    out, err = vlib.run_cases(hscan, cases, timeout=3000, args=["120"])
+    out, err = vlib.run_cases(hscan, cases, timeout=3000, args=["120"], jobs=16)
     mq, order = [], []
     for i, (decl, sexp, bufs, meta) in enumerate(items):
         for bi, b in enumerate(bufs):
